@@ -9,6 +9,8 @@ import (
 	"encoding/hex"
 	"fmt"
 	"math/bits"
+	"os"
+	"path/filepath"
 	"sort"
 	"strconv"
 	"strings"
@@ -753,8 +755,10 @@ func synthSave(o *hx.Out, r *hx.Rng, secs int) {
 		order[i], order[j] = order[j], order[i]
 	}
 	for _, i := range order {
-		k := r.Pick(1, 2, 5, 16, 17, 32, 33, 100, 256)
-		kb := r.Pick(1, 2, 3, 4, 5, 7, 8)
+		// up to 256 / 8 entries the library has an indirect palette; above, the vanilla layout (palette +
+		// 9..15-bit / 4..6-bit indices) is resolved into direct ids (since fix 6364be8)
+		k := r.Pick(1, 2, 5, 16, 17, 32, 33, 100, 256, 257, 300, 513, 1000)
+		kb := r.Pick(1, 2, 3, 4, 5, 7, 8, 9, 16, 17, 20)
 		ids := make([]int, k)
 		base := r.Intn(nStates)
 		for j := range ids {
@@ -882,6 +886,139 @@ func countCase(o *hx.Out, r *hx.Rng, nops int, cat string) {
 
 var airIDs []int
 
+// propsOf parses the Properties RawMessage the palette carries: a compound of strings, in order.
+func propsOf(m nbt.RawMessage) ([][2]string, error) {
+	if m.Type == nbt.TagEnd && len(m.Data) == 0 {
+		return nil, nil
+	}
+	if m.Type != nbt.TagCompound {
+		return nil, fmt.Errorf("properties of tag type %d", m.Type)
+	}
+	d := m.Data
+	var out [][2]string
+	str := func() (string, error) {
+		if len(d) < 2 || len(d) < 2+int(d[0])<<8+int(d[1]) {
+			return "", fmt.Errorf("truncated string")
+		}
+		l := int(d[0])<<8 + int(d[1])
+		v := string(d[2 : 2+l])
+		d = d[2+l:]
+		return v, nil
+	}
+	for {
+		if len(d) == 0 {
+			return nil, fmt.Errorf("compound without end")
+		}
+		t := d[0]
+		d = d[1:]
+		if t == nbt.TagEnd {
+			if len(d) != 0 {
+				return nil, fmt.Errorf("bytes after the end of the compound")
+			}
+			return out, nil
+		}
+		if t != nbt.TagString {
+			return nil, fmt.Errorf("property of tag type %d", t)
+		}
+		k, err := str()
+		if err != nil {
+			return nil, err
+		}
+		v, err := str()
+		if err != nil {
+			return nil, err
+		}
+		out = append(out, [2]string{k, v})
+	}
+}
+
+// genRegistry writes coq/Gen/Registry.v: one row (key, back) per state id, where key is the compact
+// form of (name, properties) - block index (order of first appearance of the name) * 2^20 + the mixed-
+// radix number of the property values (per block and property position, values numbered in order of
+// first appearance; the property names of a block must be the same for all its states) - and back is
+// the id readStatesPalette returns for the palette entry.  Two states have the same key exactly when
+// they have the same name and the same properties.  Fails loudly on any shape it does not understand.
+func genRegistry(o *hx.Out, pal []save.BlockState, back []level.BlocksState) {
+	type blk struct {
+		idx    int
+		names  []string
+		values []map[string]int
+	}
+	blocks := map[string]*blk{}
+	parsed := make([][][2]string, len(pal))
+	for i, p := range pal {
+		ps, err := propsOf(p.Properties)
+		if err != nil {
+			o.Fail("C13.registry.gen", "state %d (%s): %v", i, p.Name, err)
+			return
+		}
+		parsed[i] = ps
+		b := blocks[p.Name]
+		if b == nil {
+			b = &blk{idx: len(blocks)}
+			for _, kv := range ps {
+				b.names = append(b.names, kv[0])
+				b.values = append(b.values, map[string]int{})
+			}
+			blocks[p.Name] = b
+		}
+		if len(ps) != len(b.names) {
+			o.Fail("C13.registry.gen", "state %d (%s): %d properties, the block has %d", i, p.Name, len(ps), len(b.names))
+			return
+		}
+		for k, kv := range ps {
+			if kv[0] != b.names[k] {
+				o.Fail("C13.registry.gen", "state %d (%s): property %q where %q is expected", i, p.Name, kv[0], b.names[k])
+				return
+			}
+			if _, ok := b.values[k][kv[1]]; !ok {
+				b.values[k][kv[1]] = len(b.values[k])
+			}
+		}
+	}
+	var sb strings.Builder
+	sb.WriteString("(* GENERATED by harness/cmd/c13 from the running level/block registry - do not edit *)\n")
+	sb.WriteString("From Coq Require Import NArith List.\nImport ListNotations.\nOpen Scope N_scope.\n\n")
+	fmt.Fprintf(&sb, "Definition reg_count : N := %d.\n", len(pal))
+	fmt.Fprintf(&sb, "Definition reg_blocks : N := %d.\n", len(blocks))
+	sb.WriteString("(* row i: (compact key of (name, properties) of state i, the id the key is read back as) *)\n")
+	sb.WriteString("Definition reg_rows : list (N * N) := [\n")
+	for i, p := range pal {
+		b := blocks[p.Name]
+		off, mul := 0, 1
+		for k, kv := range parsed[i] {
+			off += b.values[k][kv[1]] * mul
+			mul *= len(b.values[k])
+		}
+		if mul > 1<<20 || b.idx >= 1<<20 {
+			o.Fail("C13.registry.gen", "state %d (%s): %d property combinations do not fit the key", i, p.Name, mul)
+			return
+		}
+		sep := ";"
+		if i == len(pal)-1 {
+			sep = ""
+		}
+		fmt.Fprintf(&sb, "(%d,%d)%s\n", b.idx<<20+off, int(back[i]), sep)
+	}
+	sb.WriteString("].\n")
+	root := os.Getenv("VERIF_ROOT")
+	if root == "" {
+		root = "/verif"
+	}
+	path := filepath.Join(root, "coq", "Gen", "Registry.v")
+	old, err := os.ReadFile(path)
+	if err == nil && string(old) == sb.String() {
+		o.Note("coq/Gen/Registry.v is current (%d rows, %d blocks)", len(pal), len(blocks))
+		return
+	}
+	if werr := os.WriteFile(path, []byte(sb.String()), 0o644); werr != nil {
+		o.Fail("C13.registry.gen", "cannot write %s: %v", path, werr)
+		return
+	}
+	// the Coq development of THIS run was checked against the previous table
+	o.Fail("C13.registry.gen-stale", "coq/Gen/Registry.v did not match the running registry and was rewritten (%d rows): run the check again", len(pal))
+}
+
 // the registry: state -> (name, properties) -> state for every id, through the code paths of
 // writeStatesPalette / readStatesPalette
 func registry(o *hx.Out) bool {
@@ -931,7 +1068,7 @@ func registry(o *hx.Out) bool {
 		}
 		o.Eval("registry.sweep", i > 0, fmt.Sprintf("state %d", i))
 	}
-	// the reverse direction on (name, properties): every canonical key maps to a state whose key it is
+	genRegistry(o, pal, back)
 	for i := 0; i < nBiomes; i++ {
 		name, _ := biome.Type(i).MarshalText()
 		var t biome.Type
@@ -1005,9 +1142,14 @@ func main() {
 		desc := fmt.Sprintf("%d sections, palette class %s, %d entities, into a %s chunk (%d entities, spare %d)", secs, shapeCat(sh), len(src.BlockEntity), kind, len(dst.BlockEntity), cap(dst.BlockEntity)-len(dst.BlockEntity))
 		wireCase(o, "wire."+kind+"."+shapeCat(sh), src, dst, tail, true, desc)
 		// the save form of the same kind of chunk
-		if i%2 == 0 && (secs <= 4 || i%20 == 0) { // ChunkFromSave recounts 4096 blocks per section: keep most small
+		if i%2 == 0 && (secs <= 3 || i%40 == 0) { // ChunkFromSave recounts 4096 blocks per section: keep most small
 			saveCase(o, "save."+shapeCat(sh), randChunk(r, sh), r, fmt.Sprintf("%d sections, palette class %s", secs, shapeCat(sh)))
 		}
+	}
+	// the save form of every palette class (one section each)
+	for i, k := range stateClasses {
+		sh := shape{secs: 1, stateK: []int{k}, biomeK: []int{biomeClasses[i%len(biomeClasses)]}}
+		saveCase(o, "save."+className(k), randChunk(r, sh), r, fmt.Sprintf("1 section, %d states, %d biomes", k, sh.biomeK[0]))
 	}
 	// outside the quantifier, correspondence only: different section counts, nil height maps
 	for i := 0; i < o.N(24, 4); i++ {
@@ -1042,7 +1184,7 @@ func main() {
 
 	// --- save form from the format definition
 	for i := 0; i < o.N(40, 6); i++ {
-		secs := r.Pick(1, 1, 2, 3, 5)
+		secs := r.Pick(1, 1, 1, 2, 3)
 		if i == 3 {
 			secs = 24
 		}
